@@ -1491,6 +1491,173 @@ theorem c12_big_distinct_uniform_partial (c : BigCfg) (hN : 1 ≤ c.N) (hnodes :
 example : genBig { N := 2, nodes := 4, hosts := [0, 0, 0, 0, 0, 0] } = .tree [[(0, 0)], [(1, 0), (2, 0)], [(3, 1)]] ∧
     genBig { N := 2, nodes := 4, hosts := [0, 1, 2, 3, 4, 5] } = .tree [[(0, 0)], [(1, 0), (2, 0)], [(3, 1)]] := by decide
 
+/-! ### onet's own predicates on the generated trees (round 5)
+
+`Tree.IsNary` / `IsBinary` / `Size` / `UsesList` and `len(Children)` (tree.go:232-278) are the predicates
+onet's tests and users judge a tree by.  On the trees the generators return they are closed forms of
+`(N, n)`: node `p` has `min N (n − 1 − N·p)` children, the tree passes `IsNary(N)` exactly when
+`N ∣ n − 1` (a binary tree exactly for odd `n`), `Size` is `n`, every member is used. -/
+
+private theorem count_closed_full {N : Nat} (hN : 0 < N) (c : Nat) :
+    ∀ k, N * c + N ≤ k → (closedParents N k).count c = N := by
+  intro k
+  induction k with
+  | zero => intro h; omega
+  | succ k ih =>
+    intro hk
+    by_cases h : N * c + N ≤ k
+    · rw [closedParents_succ, List.count_append, ih h, List.count_singleton]
+      have : k / N ≠ c := by
+        intro e
+        have := div_hi hN k
+        rw [e] at this
+        omega
+      simp [this]
+    · rw [count_closed hN c (k + 1) (by omega)]; omega
+
+private theorem closed_count {N : Nat} (hN : 0 < N) (c k : Nat) :
+    (closedParents N k).count c = min N (k - N * c) := by
+  by_cases h : k ≤ N * c + N
+  · rw [count_closed hN c k h]; omega
+  · rw [count_closed_full hN c k (by omega)]; omega
+
+/-- **arity of every node** of the generated n-ary tree: position `p` has `min N (n − 1 − N·p)`
+children — `N` while the remaining nodes last, then the rest, then none -/
+theorem c12_nary_arity (N n r : Nat) (hN : 1 ≤ N) (hn : 1 ≤ n) (p : Nat) :
+    arity (naryClosed N r n) p = min N (n - 1 - N * p) := by
+  have h : naryClosed N r n = closedPrefix N r n ((n - 1) + 1) := by
+    rw [Nat.sub_add_cancel hn]; rfl
+  unfold arity
+  rw [h, closedPrefix_parents, closed_count hN]
+
+/-- **`IsNary(N)` of the generated tree** holds exactly when the last parent is full: `N ∣ n − 1` -/
+theorem c12_nary_isNary_iff (N n r : Nat) (hN : 1 ≤ N) (hn : 1 ≤ n) :
+    isNary (naryClosed N r n) N = true ↔ (n - 1) % N = 0 := by
+  have hlen : (naryClosed N r n).length = n := by simp [naryClosed]
+  unfold isNary
+  rw [hlen, List.all_eq_true]
+  constructor
+  · intro h
+    have hp := h ((n - 1) / N) (List.mem_range.mpr (by have := Nat.div_le_self (n - 1) N; omega))
+    rw [c12_nary_arity N n r hN hn] at hp
+    have hm : n - 1 - N * ((n - 1) / N) = (n - 1) % N := by
+      have := Nat.div_add_mod (n - 1) N; omega
+    have hlt := Nat.mod_lt (n - 1) hN
+    simp only [Bool.or_eq_true, beq_iff_eq] at hp
+    omega
+  · intro h p _
+    rw [c12_nary_arity N n r hN hn]
+    simp only [Bool.or_eq_true, beq_iff_eq]
+    by_cases hp : N * p + N ≤ n - 1
+    · left; omega
+    · right
+      have hdm := Nat.div_add_mod (n - 1) N
+      rw [h] at hdm
+      have hq : (n - 1) / N ≤ p := by
+        apply Nat.le_of_lt_succ
+        apply Nat.lt_of_mul_lt_mul_left (a := N)
+        rw [Nat.mul_succ]
+        omega
+      have := Nat.mul_le_mul_left N hq
+      omega
+
+/-- the binary generator returns a tree that passes `IsBinary` exactly for an odd number of servers -/
+theorem c12_binary_isBinary_iff (n : Nat) (hn : 1 ≤ n) :
+    genBinary n = .tree (naryClosed 2 0 n) ∧ (isBinary (naryClosed 2 0 n) = true ↔ n % 2 = 1) := by
+  refine ⟨c12_nary_is_complete 2 n 0 (by omega) hn (by omega), ?_⟩
+  unfold isBinary
+  rw [c12_nary_isNary_iff 2 n 0 (by omega) hn]; omega
+
+/-- the star generator: the root has all other servers as children and the tree passes `IsNary(n − 1)` -/
+theorem c12_star_isNary (n : Nat) (hn : 2 ≤ n) :
+    genStar n = .tree (naryClosed (n - 1) 0 n) ∧ isNary (naryClosed (n - 1) 0 n) (n - 1) = true ∧
+      arity (naryClosed (n - 1) 0 n) 0 = n - 1 := by
+  refine ⟨c12_nary_is_complete (n - 1) n 0 (by omega) (by omega) (by omega), ?_, ?_⟩
+  · rw [c12_nary_isNary_iff (n - 1) n 0 (by omega) (by omega)]; exact Nat.mod_self _
+  · rw [c12_nary_arity (n - 1) n 0 (by omega) (by omega)]; simp
+
+/-- from the root `Visit` reaches every node: each node's parent is the root or was reached before -/
+private theorem descendants_root : ∀ (ps : List Nat) (j : Nat) (acc : List Nat), 1 ≤ j →
+    (∀ x, x ∈ acc ↔ 1 ≤ x ∧ x < j) → (∀ i q, ps[i]? = some q → q < j + i) →
+    (descendants 0 ps j acc).length = acc.length + ps.length := by
+  intro ps
+  induction ps with
+  | nil => intro j acc _ _ _; simp [descendants]
+  | cons q rest ih =>
+    intro j acc hj hacc hlt
+    have hq : q < j := by have := hlt 0 q (by simp); omega
+    have hc : q = 0 ∨ q ∈ acc := by
+      by_cases h0 : q = 0
+      · exact Or.inl h0
+      · exact Or.inr ((hacc q).mpr ⟨by omega, hq⟩)
+    unfold descendants
+    rw [if_pos hc, ih (j + 1) (acc ++ [j]) (by omega)]
+    · simp; omega
+    · intro x
+      simp only [List.mem_append, List.mem_singleton, hacc x]
+      omega
+    · intro i q' h
+      have := hlt (i + 1) q' (by simpa using h)
+      omega
+
+/-- **`Size()` of the generated n-ary tree is the roster size** (computed as the code does, by the walk
+from the root) -/
+theorem c12_nary_size (N n r : Nat) (hn : 1 ≤ n) : size (naryClosed N r n) = n := by
+  have h : naryClosed N r n = closedPrefix N r n ((n - 1) + 1) := by
+    rw [Nat.sub_add_cancel hn]; rfl
+  unfold size subtreeCount
+  rw [h, closedPrefix_parents, descendants_root _ 1 [] (Nat.le_refl 1)]
+  · simp [closedParents]; omega
+  · intro x; simp; omega
+  · intro i q hq
+    simp only [closedParents, List.getElem?_map, Option.map_eq_some_iff] at hq
+    obtain ⟨a, ha, rfl⟩ := hq
+    have ha' : a = 1 + i := by
+      rw [List.getElem?_range'] at ha
+      · have := Option.some.inj ha; omega
+      · have := (List.getElem?_eq_some_iff.mp ha).1; simpa using this
+    subst ha'
+    have := Nat.div_le_self (1 + i - 1) N
+    omega
+
+/-- **`UsesList()` of the generated n-ary tree is true**: every roster member is on a node -/
+theorem c12_nary_usesList (N n r : Nat) (hr : r < n) : usesList (naryClosed N r n) n = true := by
+  unfold usesList
+  rw [List.all_eq_true]
+  intro m hm
+  have hmem := ((c12_nary_members N n r hr).2.2 m).mpr (List.mem_range.mp hm)
+  obtain ⟨x, hx, hxe⟩ := List.mem_map.mp hmem
+  exact List.any_eq_true.mpr ⟨x, hx, by simp [hxe]⟩
+
+private theorem flatten_go_members : ∀ (ls : List Level) (a b : Nat),
+    (Drv.flatten.go ls a b).map (·.1) = ls.flatten.map (·.1) := by
+  intro ls
+  induction ls with
+  | nil => intro a b; simp [Drv.flatten.go]
+  | cons l rest ih =>
+    intro a b
+    simp only [Drv.flatten.go, List.map_append, List.map_map, List.flatten_cons, ih]
+    congr 1
+
+/-- the big generator with as many nodes as servers returns a tree that passes `UsesList()`
+(stated on the creation-order form the driver prints) -/
+theorem c12_big_usesList (c : BigCfg) (hN : 1 ≤ c.N) (hall : c.nodes = c.hosts.length) (hnodes : 1 ≤ c.nodes)
+    (lv : List Level) (h : genBig c = .tree lv) : usesList (Drv.flatten lv) c.hosts.length = true := by
+  unfold usesList
+  rw [List.all_eq_true]
+  intro m hm
+  have hmem := (c12_big_use_all c hN hall hnodes lv h).2.2 m (List.mem_range.mp hm)
+  have hf : (Drv.flatten lv).map (·.1) = membersOf lv := by
+    unfold Drv.flatten membersOf; exact flatten_go_members lv 0 0
+  rw [← hf] at hmem
+  obtain ⟨x, hx, hxe⟩ := List.mem_map.mp hmem
+  exact List.any_eq_true.mpr ⟨x, hx, by simp [hxe]⟩
+
+/-- non-vacuity: 7 servers / binary passes `IsBinary`, 6 servers does not; a star of 5 -/
+example : isBinary (naryClosed 2 3 7) = true ∧ isBinary (naryClosed 2 0 6) = false ∧
+    size (naryClosed 2 3 7) = 7 ∧ usesList (naryClosed 2 3 7) 7 = true ∧ leaves (naryClosed 2 3 7) = 4 ∧
+    isNary (naryClosed 4 0 5) 4 = true := by decide
+
 /-! ### the code regions the model stands for
 Regenerated from /repo's source on every run (`harness/cmd/astfacts` → `OnetVerif/Shapes.lean`): the
 calls that matter for synchronisation and data flow, the lock regions and (for decision logic) the
